@@ -535,65 +535,78 @@ def _save_before_rm(repo, cls_q, method):
             return memo[key]
         memo[key] = (False, saved_in)  # recursion guard
         g = cfg_of(fi)
-        # forward must-analysis over the CFG (normal edges)
-        state = {g.entry.id: saved_in}
+        # forward must-analysis over the CFG (normal edges), round-robin to the fixpoint.  outs[n] = "saved" after n.
+        params = {a.arg for a in fi.node.args.args}
+        outs = {}
         violation = False
-        work = [g.entry]
-        order_guard = 0
-        while work and order_guard < 5000:
-            order_guard += 1
-            n = work.pop()
-            s = state[n.id]
-            out = s
-            if n.kind == 'branch' and n.label in (True, False):
-                from engine.cfg import _atoms
-                facts = []
-                _atoms(n.test, n.label, facts)
-                # nothing to save for a None object / an object that is not in the table
-                if any((txt.endswith(' is None') and pol is True) for txt, pol in facts):
-                    out = True
-            elif n.kind not in ('entry',):
-                for c in sorted(n.calls(), key=lambda c: (c.lineno, c.col_offset)):
-                    nm = call_name(c)
-                    tgt = None
-                    if nm == 'apply_map' and c.args and isinstance(c.args[0], ast.Attribute) and \
-                            dotted(c.args[0].value) == 'self':
-                        nm = c.args[0].attr
-                        tgt = repo.resolve_method(cls_q, nm)
-                    elif isinstance(c.func, ast.Attribute) and dotted(c.func.value) == 'self':
-                        tgt = repo.resolve_method(cls_q, nm)
-                    elif isinstance(c.func, ast.Attribute) and isinstance(c.func.value, ast.Call) and \
-                            call_name(c.func.value) == 'super':
-                        mro = repo.mro(cls_q)
-                        defcls = fi.cls.qual
-                        idx = mro.index(defcls) if defcls in mro else -1
-                        for cand in mro[idx + 1:]:
-                            if nm in repo.classes[cand].methods:
-                                tgt = repo.classes[cand].methods[nm]
-                                break
-                    else:
+        for _round in range(50):
+            changed = False
+            viol_round = False
+            for n in g.nodes:
+                if n is g.entry:
+                    s = saved_in
+                else:
+                    ins = [outs[p.id] for p in n.pred if p.id in outs]
+                    if not ins:
                         continue
-                    if nm == '_save_version':
+                    s = all(ins)
+                out = s
+                if n.kind == 'branch' and n.label in (True, False):
+                    from engine.cfg import _atoms
+                    facts = []
+                    _atoms(n.test, n.label, facts)
+                    # nothing to save for a None object / an object that is not in the table
+                    if any((txt.endswith(' is None') and pol is True) for txt, pol in facts):
                         out = True
-                        trace.append(f'{"  " * depth}{fi.qual.rsplit(".", 2)[-2]}.{fi.name}: _save_version')
-                        continue
-                    if nm == '_rm_indices':
-                        trace.append(f'{"  " * depth}{fi.qual.rsplit(".", 2)[-2]}.{fi.name}: _rm_indices '
-                                     f'(saved={out})')
-                        if not out:
-                            violation = True
-                        continue
-                    if tgt is not None and (nm.startswith('remove_object') or nm.startswith('_rm')):
-                        trace.append(f'{"  " * depth}{fi.qual.rsplit(".", 2)[-2]}.{fi.name} -> '
-                                     f'{tgt.qual.rsplit(".", 2)[-2]}.{tgt.name}')
-                        v, out2 = summarize(tgt, out, depth + 1)
-                        violation = violation or v
-                        out = out2
-            for m in n.succ:
-                new = out if m.id not in state else (state[m.id] and out)
-                if m.id not in state or new != state[m.id]:
-                    state[m.id] = new
-                    work.append(m)
+                elif n.kind == 'branch' and n.label == 'done' and isinstance(n.stmt.iter, ast.Name) and \
+                        n.stmt.iter.id in params and not any(isinstance(x, ast.Break) for x in ast.walk(n.stmt)):
+                    # `for obj in <the objects to remove>`: after the loop every element went through the body; when every
+                    # path through the body saved the version, all of them are saved (no element: nothing to save)
+                    head = n.pred[0]
+                    ends = [outs[p.id] for p in head.pred if n.stmt in p.loops and p.id in outs]
+                    if ends and all(ends):
+                        out = True
+                elif n.kind not in ('entry',):
+                    for c in sorted(n.calls(), key=lambda c: (c.lineno, c.col_offset)):
+                        nm = call_name(c)
+                        tgt = None
+                        if nm == 'apply_map' and c.args and isinstance(c.args[0], ast.Attribute) and \
+                                dotted(c.args[0].value) == 'self':
+                            nm = c.args[0].attr
+                            tgt = repo.resolve_method(cls_q, nm)
+                        elif isinstance(c.func, ast.Attribute) and dotted(c.func.value) == 'self':
+                            tgt = repo.resolve_method(cls_q, nm)
+                        elif isinstance(c.func, ast.Attribute) and isinstance(c.func.value, ast.Call) and \
+                                call_name(c.func.value) == 'super':
+                            mro = repo.mro(cls_q)
+                            defcls = fi.cls.qual
+                            idx = mro.index(defcls) if defcls in mro else -1
+                            for cand in mro[idx + 1:]:
+                                if nm in repo.classes[cand].methods:
+                                    tgt = repo.classes[cand].methods[nm]
+                                    break
+                        else:
+                            continue
+                        if nm == '_save_version':
+                            out = True
+                            continue
+                        if nm == '_rm_indices':
+                            if not out:
+                                viol_round = True
+                            continue
+                        if tgt is not None and (nm.startswith('remove_object') or nm.startswith('_rm')):
+                            v, out2 = summarize(tgt, out, depth + 1)
+                            viol_round = viol_round or v
+                            out = out2
+                if outs.get(n.id) != out:
+                    outs[n.id] = out
+                    changed = True
+            violation = viol_round
+            if not changed:
+                break
+        trace.append(f'{"  " * depth}{fi.qual.rsplit(".", 2)[-2]}.{fi.name}: saved in={saved_in} out={outs.get(g.exit.id)}'
+                     f'{" VIOLATION: indices removed while not saved" if violation else ""}')
+        state = outs
         res = (violation, state.get(g.exit.id, saved_in))
         memo[key] = res
         return res
